@@ -130,6 +130,14 @@ RELEASE_TYPES = [
 ]
 
 
+def _matches(pattern, value):
+    match = re.match(pattern, value)
+    if match is None:
+        return False
+    # "$" also matches in front of a trailing line break; that is no match
+    return not (value.endswith("\n") and match.end() == len(value) - 1)
+
+
 def is_valid_release_short(short):
     """
     Determine if given release short name is valid.
@@ -138,8 +146,7 @@ def is_valid_release_short(short):
     :type short: str
     :rtype: bool
     """
-    match = RELEASE_SHORT_RE.match(short)
-    return match is not None
+    return _matches(RELEASE_SHORT_RE, short)
 
 
 def is_valid_release_version(version):
@@ -150,8 +157,7 @@ def is_valid_release_version(version):
     :type version: str
     :rtype: bool
     """
-    match = RELEASE_VERSION_RE.match(version)
-    return match is not None
+    return _matches(RELEASE_VERSION_RE, version)
 
 
 def is_valid_release_type(release_type):
@@ -162,8 +168,7 @@ def is_valid_release_type(release_type):
     :type release_type: str
     :rtype: bool
     """
-    match = RELEASE_TYPE_RE.match(release_type)
-    return match is not None
+    return _matches(RELEASE_TYPE_RE, release_type)
 
 
 def _urlopen(path):
@@ -241,13 +246,8 @@ class MetadataBase(object):
         """
         value = getattr(self, field)
         for pattern in expected_patterns:
-            try:
-                if pattern.match(value):
-                    return
-            except AttributeError:
-                # It's not a compiled regex, treat it as string.
-                if re.match(pattern, value):
-                    return
+            if _matches(pattern, value):
+                return
         raise ValueError("%s: Field '%s' has invalid value: %s. It does not match any provided REs: %s"
                          % (self.__class__.__name__, field, value, expected_patterns))
 
